@@ -1,7 +1,8 @@
 """C01 - untrusted font data is rejected with an error, never a crash.
 
 TLC (MC_FaultModel): (a) enumerates the abstract fault sequences of FaultModel.tla by (kind, role,
-value class, level) - every sequence of at most two faults, thorough: triples on directory / header
+value class, level; value classes = eleven byte-level ones and, for offset / index fields, the
+reference classes self / parent) - every sequence of at most two faults, thorough: triples on directory / header
 fields - one CASE per sequence; (b) applies every concrete fault sequence up to the bound to three
 model files (sfnt, collection, WOFF) and checks the model's own lemmas (the file never grows, the
 container-level expectation is total, the judge's view gives the expectation of Sfnt.tla's reader, a
@@ -39,8 +40,14 @@ ASSUMPTIONS = [
     "the harness is built with overflow-checks and debug-assertions on (as cargo test is): arithmetic overflow and "
     "debug_assert count as panics",
     "fields are those found by the structural walk of c01_faults/fields.rs (container headers, directories, table "
-    "headers, first / middle / last array entries, selected glyph / charstring / DICT records) plus every primitive "
+    "headers, first / middle / last array entries, the variation tables and CFF / CFF2 structures in full, composite "
+    "glyphs and subroutine call operands of the glyphs the outlines group visits) plus every primitive "
     "read the cfg(allsorts_verif) hook logged on the intact font that the walk does not cover",
+    "the reference classes self / parent are instantiated where the walk knows the containing structure and its parent "
+    "(directory records, CFF DICT offsets, SVG / CBLC offsets, composite components, subroutine call operands inside "
+    "subroutines, sequence lookup records, seac operands); offsets counted from their own structure have self = 0 = class zero",
+    "quick tier: every structural non-value field is crossed with every value class only on the champion inputs (a cover "
+    "of all kinds of field per table kind; every variable font); elsewhere table-level fields are sampled by seed",
     "a fault sequence is crossed with the entry point groups that asked the table provider for a damaged table on the "
     "intact font (all groups for header-level faults, truncation, removal and swaps)",
     "container-level expectations are exact for sfnt, collections and uncompressed WOFF tables; for zlib-wrapped WOFF "
@@ -64,7 +71,7 @@ REQUIRED_TABLE_KINDS = {
 # kinds of field on which the classes "self" / "parent" must have been instantiated
 REQUIRED_REF_KINDS = [r"^glyf:index:glyph\.comp\.glyphIndex$", r"^CFF :index:lsubr\.callsubr\.arg$", r"^CFF :index:gsubr\.callgsubr\.arg$",
                       r"^CFF2:index:lsubr\.callsubr\.arg$", r"^GSUB:index:lookup\.ctx.*lookupListIndex$", r"^dir:offset:rec\.offset$",
-                      r"^CFF :offset:top\.op17\.arg$"]
+                      r"^CFF :offset:top\.op17\.arg$", r"^CFF :index:charstring\.seac\.[ab]char$"]
 
 
 def _site_key(site):
@@ -435,8 +442,9 @@ def run(ctx):
         "rule": "an evaluation is one (input, concrete fault sequence, entry point group) event; abstract fault sequences are "
                 "enumerated by TLC (MC_FaultModel, config %s) and instantiated by the deterministic plan of c01_faults.rs: every "
                 "directory / header field of every input x every value class, structural faults on the directory records, "
-                "table-level fields (quick: seeded picks per role x class; thorough: every structural field plus a sample of the "
-                "hook-discovered ones), seeded pairs (thorough: triples); a case = (input, concrete fault sequence); it is "
+                "table-level fields (quick: every structural non-value field of the champion inputs - a cover of all kinds of "
+                "field per table kind plus every variable font - and seeded picks per role x class elsewhere; thorough: every "
+                "structural field plus a sample of the hook-discovered ones), seeded pairs (thorough: triples); a case = (input, concrete fault sequence); it is "
                 "non-trivial when at least one group answered differently from its baseline on the intact input (outcome or "
                 "number of calls that returned a value / an error), i.e. allsorts noticed the fault; sequences that leave the "
                 "bytes unchanged are not run" % cfg,
@@ -459,7 +467,8 @@ def run(ctx):
         "exhaustive": False,
         "explanation": "fault sequences are enumerated exhaustively at the abstract level (kind, role, value class, level) up to "
                        "length 2 (3 on directory fields, thorough); their instantiation on concrete fields is exhaustive for "
-                       "directory / header fields and sampled by seed elsewhere",
+                       "directory / header fields, for the structural non-value fields of the champion inputs (quick) or of all inputs "
+                       "(thorough), and sampled by seed elsewhere",
     }
     for k in ("fault_sequences_run", "inputs", "faults_per_role", "faults_per_value_class", "faults_per_kind", "faults_per_level",
               "sequences_per_length", "outcomes_per_group", "ok_to_err_per_group", "more_failing_calls_than_on_intact_per_group",
